@@ -232,18 +232,20 @@ def compile (isFn : Nat → Bool) (c : Ctx) : Expr → G (List Instr × Bool)
     -- the elements are operands of the constructor call, never tail positions (fix C04-08)
     let (code, _) ← compileAll isFn { c with tail := false } es
     pure (code ++ [.callArr es.length], c.tail)
-  | .call (.sym h) args => do
-    let tmpl := c.known.lookup h
-    let gs ← get
-    let f : Option FnObj := tmpl.bind (fun t => gs.fns[t]?)
-    -- a self tail call with the wrong number of arguments is an ordinary call (fix C04-04)
-    let arityOk := match f with
-      | some fo => if fo.varargs then decide (fo.nargs ≤ args.length) else args.length == fo.nargs
-      | none => true
-    if c.tail && h == c.funcname && arityOk then do
-      -- self tail call: arguments inline, re-enter at instruction 0
-      let code ← compileCallArgs isFn { c with tail := false } f 0 args
-      pure (code ++ [.prepareCall h args.length] ++ List.replicate (c.scopes + 1) .removeScope ++ [.goto 0], c.tail)
+  | .call (.sym h) args =>
+    if c.tail && h == c.funcname then do
+      let tmpl := c.known.lookup h
+      let gs ← get
+      let f : Option FnObj := tmpl.bind (fun t => gs.fns[t]?)
+      -- a self tail call with the wrong number of arguments is an ordinary call (fix C04-04)
+      let arityOk := match f with
+        | some fo => if fo.varargs then decide (fo.nargs ≤ args.length) else args.length == fo.nargs
+        | none => true
+      if arityOk then do
+        -- self tail call: arguments inline, re-enter at instruction 0
+        let code ← compileCallArgs isFn { c with tail := false } f 0 args
+        pure (code ++ [.prepareCall h args.length] ++ List.replicate (c.scopes + 1) .removeScope ++ [.goto 0], c.tail)
+      else pure ([.callExpr (.sym h) args], c.tail)
     else pure ([.callExpr (.sym h) args], c.tail)
   | .call f args => pure ([.callExpr f args], c.tail)
   | .begin_ [] => pure ([.push .nil], c.tail)          -- (begin) yields nil (fix C04-02)
